@@ -86,6 +86,11 @@ class LogicalExpressionTransformer(converter.Base):
   def visit_Compare(self, node):
     node = self.generic_visit(node)
 
+    if all(self._overload_of(op) is None for op in node.ops):
+      # Nothing to overload. Keeping the comparison as it is also keeps Python's
+      # single evaluation of the middle operands of a chain like `a < f() < c`.
+      return node
+
     ops_and_comps = list(zip(node.ops, node.comparators))
     left = node.left
 
